@@ -38,7 +38,7 @@ MC_ACTIONS = ('Begin', 'DoStepFwd', 'DoStepBack', 'DoStepFwdTop', 'DoStepBackTop
               'DoPrevChild', 'Finish', 'GenBegin', 'GenNext', 'GenFinish', 'GenFinishUnfilteredSelf', 'GenClose')
 
 NJVM = 12
-BATCH_COST = 1_200_000   # ~ 8-10 k nodes of typical programs per TLC batch
+BATCH_COST = 400_000   # ~ 3 k nodes of typical programs (~10 MB of JSON) per TLC batch
 
 
 # ----------------------------------------------------------------------------------------------------------------------
@@ -196,7 +196,7 @@ def validate_all(ctx, traces, njvm=NJVM):
     out = {}
 
     def one(b):
-        return ctx.validate({'traces': b[1]}, module='WalkTrace', heap='2g')
+        return ctx.validate({'traces': b[1]}, module='WalkTrace', heap='1536m')
 
     with cf.ThreadPoolExecutor(max_workers=min(n, njvm)) as ex:
         for verd in ex.map(one, [b for b in bins if b[1]]):
@@ -293,7 +293,7 @@ def run(ctx):
     # (M) and (G) run next to (V): three independent pipelines, results are only read after all have finished
     side = cf.ThreadPoolExecutor(max_workers=2)
     fm = side.submit(lambda: ctx.model('WalkMC', 'WalkMC' if ctx.quick else 'WalkMC_thorough', required=MC_ACTIONS,
-                                       workers=8, heap='3g'))
+                                       workers=8, heap='2g'))
     fg = side.submit(c14_gen.run, ctx)
     nprog, skipped = 0, []
     try:
